@@ -193,6 +193,9 @@ namespace occa {
                                       ? (length() - offset)
                                       : count);
 
+    OCCA_ERROR("Cannot have a negative offset (" << offset << ")",
+               offset >= 0);
+
     OCCA_ERROR("Trying to allocate negative elements (" << count << ")",
                bytes >= 0);
 
